@@ -283,6 +283,12 @@ static int parse_vector(vnacal_load_state_t *vlsp, double complex **vector,
     yaml_node_item_t *item;
     int items;
 
+    if (node == NULL) {
+	_vnacal_error(vcp, VNAERR_SYNTAX,
+		"%s error: missing error term vector for frequency index %d",
+		vcp->vc_filename, findex);
+	return -1;
+    }
     if (node->type != YAML_SEQUENCE_NODE) {
 	_vnacal_error(vcp, VNAERR_SYNTAX,
 		"%s (line %ld) error: expected sequence",
@@ -326,6 +332,12 @@ static int parse_old_e_matrix(vnacal_load_state_t *vlsp,
     int items;
     int cell = 0;
 
+    if (matrix_node == NULL) {
+	_vnacal_error(vcp, VNAERR_SYNTAX,
+		"%s error: missing error term matrix for frequency index %d",
+		vcp->vc_filename, findex);
+	return -1;
+    }
     if (matrix_node->type != YAML_SEQUENCE_NODE) {
 	_vnacal_error(vcp, VNAERR_SYNTAX,
 		"%s (line %ld) error: expected sequence",
@@ -426,6 +438,12 @@ static int parse_matrix(vnacal_load_state_t *vlsp, double complex **matrix,
     int items;
     int cell = 0;
 
+    if (matrix_node == NULL) {
+	_vnacal_error(vcp, VNAERR_SYNTAX,
+		"%s error: missing error term matrix for frequency index %d",
+		vcp->vc_filename, findex);
+	return -1;
+    }
     if (matrix_node->type != YAML_SEQUENCE_NODE) {
 	_vnacal_error(vcp, VNAERR_SYNTAX,
 		"%s (line %ld) error: expected sequence",
